@@ -55,6 +55,9 @@ pub enum Step {
     Lie(usize),
     /// Panic inside `read()` (nothing delivered).
     Panic,
+    /// A sloppy `Read`: stores at most `n` bytes but reports `n + extra` (still within the offered
+    /// slice). What the reader then exposes for the extra bytes is whatever its buffer held.
+    Overreport(usize, usize),
 }
 
 #[derive(Clone, Debug, PartialEq, Eq)]
@@ -256,6 +259,15 @@ impl Read for SimSource {
                     res = CallRes::Panic;
                     ret = Ok(0); // replaced below
                 }
+                Step::Overreport(n, extra) => {
+                    let k = n.max(1).min(offered).min(limit - st.pos.min(limit));
+                    buf[..k].copy_from_slice(&st.data[st.pos..st.pos + k]);
+                    st.pos += k;
+                    let claimed = (k + extra).min(offered);
+                    st.c.ok_calls += 1;
+                    res = CallRes::Ok(claimed);
+                    ret = Ok(claimed);
+                }
                 Step::Deliver(_) | Step::Fill => {
                     let want = match step {
                         Step::Deliver(n) => n.max(1),
@@ -449,6 +461,7 @@ pub fn step_to_string(s: &Step) -> String {
         Step::Interrupted => "i".to_string(),
         Step::Lie(n) => format!("l{n}"),
         Step::Panic => "p".to_string(),
+        Step::Overreport(n, e) => format!("o{n}+{e}"),
     }
 }
 
@@ -460,6 +473,10 @@ pub fn step_from_str(s: &str) -> Option<Step> {
         "i" => Step::Interrupted,
         "l" => Step::Lie(t.parse().ok()?),
         "p" => Step::Panic,
+        "o" => {
+            let (a, b) = t.split_once('+')?;
+            Step::Overreport(a.parse().ok()?, b.parse().ok()?)
+        }
         _ => return None,
     })
 }
